@@ -25,7 +25,7 @@ RULE = (
     "Hypothesis draws a registry world (as C03: incl. alias sources, sources with extra dependencies, late registration "
     "order, literal barriers, side-reading calls) and a history (runs, faulted runs, source updates, deletions, fresh_time = clock-d "
     "incl. the boundary fresh_time == a store's time). For every fault-free run: expected = oracle(out-of-date set, needed "
-    "set) computed from the spec and the stores' times; observed call/read/write/modified-time multisets must equal it; "
+    "set) computed from the spec and the stores' times; observed call / read / write multisets must equal it (which stores are asked for their modified time is not constrained); "
     "then the same run repeated with no output must perform no call, read or write (when the model says a source without writer is left out of date by construction, the repeat must instead match the model exactly). Non-trivial = the out-of-date set is "
     "a non-empty proper subset of the registered nodes, or the repeat follows a non-empty rebuild. Distinct = SHA-1 of "
     "(case, index of the run)."
@@ -61,6 +61,7 @@ def check_case(ctx, case, record=True):
     ent = refmodel.entries(spec)
     if record:
         ctx.count("histories")
+        ctx.count(*["world:" + c for c in regcommon.spec_classes(spec)])
     for n, op in enumerate(case["ops"]):
         tag = f"[op {n}: {regcommon.describe(op)}] "
         if op["op"] == "update":
